@@ -298,6 +298,9 @@ func (f *g2lFn) leanType(t types.Type, at ast.Node) string {
 	if isBytesBuffer(t) || f.isAccum(t) {
 		return "Bytes"
 	}
+	if at2, ok := t.(*types.Array); ok && intKindOf(at2.Elem()) == kU8 {
+		return "Bytes"
+	}
 	if sig, ok := t.(*types.Signature); ok {
 		// a function-typed parameter (open func(string) (io.ReadCloser, error))
 		ps := []string{}
@@ -388,6 +391,9 @@ func (f *g2lFn) structType(name string) string {
 func (f *g2lFn) zero(t types.Type, at ast.Node) string {
 	if isBytesBuffer(t) || f.isAccum(t) {
 		return "([] : Bytes)"
+	}
+	if at2, ok := t.(*types.Array); ok && intKindOf(at2.Elem()) == kU8 {
+		return fmt.Sprintf("(List.replicate %d (0 : UInt8))", at2.Len())
 	}
 	if n, ok := t.(*types.Named); ok {
 		if v, ok := f.u.absTypes[n.Obj().Name()]; ok {
@@ -698,6 +704,9 @@ func (f *g2lFn) expr(b *binds, e ast.Expr) string {
 						return "(" + p + " " + x + ")"
 					}
 				}
+			}
+			if at2, ok := f.typeOf(e.X).(*types.Array); ok && intKindOf(at2.Elem()) == kU8 && e.Low == nil && e.High == nil {
+				return x
 			}
 			f.bad(e, "slice of array")
 		}
